@@ -222,7 +222,8 @@ def uudecode(path):
 # always part of a sampled corpus: decoders with state carried from one decode call to the next (branch converters,
 # solid blocks, old-format sparse maps with extension blocks) - what they deliver must not depend on the call pattern
 MUST_REFS = re.compile(r"test_read_format_7zip_(bcj|bcj2|deflate|lzma\d?|zstd|bzip2|ppmd)_?\w*\.7z$|test_read_format_gtar_sparse_1_1[37]|"
-                       r"test_read_format_rar_(ppmd_lzss|multi_lzss|compress_best)|test_read_format_cab_[123]|test_read_format_lha_lh[067]")
+                       r"test_read_format_rar_(ppmd_lzss|multi_lzss|compress_best)|test_read_format_cab_[123]|test_read_format_lha_lh[067]|"
+                       r"test_read_format_zip_(lzma|xz|ppmd8|bzip2|zstd)\w*\.zipx$|test_read_format_zip_7z_lzma|test_read_format_zip_lzma_multi")
 
 def reference_archives(max_size, limit=None):
     """(name, bytes) of the suite's reference archives up to max_size, deterministic order"""
@@ -242,6 +243,65 @@ def reference_archives(max_size, limit=None):
         keep += [(n, b) for n, b in res if MUST_REFS.search(n) and n not in names and len(b) <= 120000]
         res = keep
     return res
+
+def decompressed_images(max_size=600000):
+    """the suite keeps its ISO images compressed (.iso.Z, .iso.bz2 ...): behind the decompression filter the format reader
+    only ever sees 64 KiB blocks.  Here they are decompressed first (with the bsdcat of this build), so that the
+    partitions of the byte source reach the format reader itself."""
+    import bz2, gzip
+    res = []
+    for n, b in reference_archives(60000):
+        m = re.search(r"\.iso\.(Z|bz2|gz)$", n)
+        if not m:
+            continue
+        try:
+            raw = unlzw(b) if m.group(1) == "Z" else bz2.decompress(b) if m.group(1) == "bz2" else gzip.decompress(b)
+        except Exception:
+            continue
+        if 0 < len(raw) <= max_size:
+            res.append(("raw:" + n, raw))
+    return res
+
+def unlzw(data):
+    """compress(1) .Z decoder (independent of libarchive), used only to prepare inputs"""
+    if len(data) < 3 or data[0] != 0x1f or data[1] != 0x9d:
+        raise ValueError("not .Z")
+    maxbits, block = data[2] & 0x1f, bool(data[2] & 0x80)
+    table = {i: bytes([i]) for i in range(256)}
+    nxt = 257 if block else 256
+    bits, out, prev = 9, bytearray(), None
+    pos, n = 24, len(data) * 8            # bit position
+    base = 24
+    while pos + bits <= n:
+        code = 0
+        for k in range(bits):
+            code |= ((data[(pos + k) >> 3] >> ((pos + k) & 7)) & 1) << k
+        pos += bits
+        if block and code == 256:
+            # codes come in groups of 8: skip to the next group boundary, start over with 9 bits
+            grp = bits * 8
+            pos = base + ((pos - base + grp - 1) // grp) * grp
+            base = pos
+            table = {i: bytes([i]) for i in range(256)}
+            nxt, bits, prev = 257, 9, None
+            continue
+        if code in table:
+            cur = table[code]
+        elif prev is not None and code == nxt:
+            cur = prev + prev[:1]
+        else:
+            raise ValueError("bad code")
+        out += cur
+        if prev is not None and nxt < (1 << maxbits):
+            table[nxt] = prev + cur[:1]
+            nxt += 1
+            if nxt > (1 << bits) - 1 + (1 if bits == maxbits else 0) and bits < maxbits:
+                grp = bits * 8
+                pos = base + ((pos - base + grp - 1) // grp) * grp
+                base = pos
+                bits += 1
+        prev = cur
+    return bytes(out)
 
 def replicated_archives(times=160):
     """small LHA references repeated until they are larger than what the format bidders pull into the copy buffer
